@@ -15,6 +15,7 @@ found once are kept minimised in corpus/C08/e<k>_*.json and a fresh search runs 
 """
 import itertools
 import json
+import random
 
 from harness.core import VERIF, Ctx, clist, cnat, copt, cz, guarded
 from harness.props import maxflow_events as EV
@@ -275,6 +276,56 @@ def run_sequence(case, timeout=5.0):
     return None
 
 
+def _call_on(g, a, b, back, timeout=5.0):
+    from solvor.flow import max_flow
+
+    res = guarded(max_flow, g, a, b, timeout=timeout)
+    if res[0] != "ok":
+        return res
+    sol = {}
+    for k, x in dict(res[1].solution).items():
+        try:
+            sol[(back[k[0]], back[k[1]])] = x
+        except (KeyError, TypeError, IndexError):
+            sol[k] = x
+    return ("ok", sol, res[1].objective, res[1].iterations, None)
+
+
+def run_edits(case, rng, steps=3):
+    """A2: call, then edit the caller's graph IN PLACE (replace an element, append / delete an arc, add a key, swap
+    capacities), call again on the same object - optionally after another public function of solvor.flow has seen the same
+    object - and compare with a call on a freshly built copy of the edited input; the edited answer is also judged by the
+    oracle.  -> None or a description."""
+    from solvor import flow as F
+
+    c = json.loads(json.dumps({k: case[k] for k in ("graph", "source", "sink")}))
+    v = dict(case.get("variant") or {})
+    v["mapping"] = rng.choice(["dict", "dict", "OrderedDict", "defaultdict"])
+    v["adj"] = "list"
+    c["variant"] = v
+    g, s, t, back = SH.materialize(c)
+    lab = SH.labeller(json.loads(json.dumps(c)))
+    _call_on(g, s, t, back)
+    log = []
+    for _ in range(steps):
+        log.append(SH.edit_in_place(rng, c, g, lab))
+        if rng.random() < 0.4:
+            # another public function of the module looks at the same object in between (shared caches must not leak)
+            if all(len(e) >= 3 for k in g for e in g[k]):
+                guarded(F.min_cost_flow, g, s, t, 1, timeout=2.0)
+            else:
+                guarded(F.max_flow, g, t, s, timeout=2.0)
+        again = _call_on(g, s, t, back)
+        fresh = run_impl(c)
+        if again[:4] != fresh[:4]:
+            return (f"after in-place edits {log} the call on the SAME graph object gives {again[1:4]!r}, "
+                    f"a fresh copy of the edited graph gives {fresh[1:4]!r}"), c
+        bad = oracle(c, again)
+        if bad:
+            return f"after in-place edits {log}: {bad}", c
+    return None, c
+
+
 # ---------------------------------------------------------------- independent oracle (the property itself)
 def pooled(case):
     cap = {}
@@ -508,7 +559,10 @@ def run(ctx: Ctx):
                 "tuple/list, graph dict/OrderedDict/defaultdict/read-only proxy; S large instances with the answer known by construction (chains "
                 "to 4097, 65537 parallel arcs, fans, complete and hidden matchings, disjoint paths, cycles); M capacities 2^31..10^18, 2^53+-1, "
                 "huge+tiny, scaling by 2^k (objective scales); A caller's graph unchanged after every call, every 4th case called again after "
-                "another call; O no options; H events as above; "
+                "another call, every 8th one graph object through (s,t),(t,s),(s,t); A2 in-place edits of the caller's graph between calls (replace / append / "
+                "delete an arc, new key, swap capacities; min_cost_flow or max_flow(t,s) on the same object in between) compared with a fresh copy; "
+                "W work volume: spine/hub unit networks with 130..10^4 (thorough 10^5) augmentations, fans, 10^4-node paths, 10^5-neighbour stars "
+                "(coverage.work_volume_max, histogram work_crossed); O no options; X floats are outside the quantifier (integer capacities); H events as above; "
                 "non-trivial = maximum flow >= 1 reached with >= 2 augmentations or any event e1-e5; distinct = canonical JSON of the case. "
                 "Histogram `event` counts cases per event, reverse_arc_used cases where an augmentation cancelled flow (reference port).")
     ctx.proof_step(["C08"])
@@ -580,11 +634,30 @@ def run(ctx: Ctx):
         add("magnitude", [c])
     # S: sizes
     for i in range(n_big):
-        c = SH.gen_big(rng, thorough, SH.BIG_KINDS[i % len(SH.BIG_KINDS)])
+        sd = rng.getrandbits(48)
+        c = SH.gen_big(random.Random(sd), thorough, SH.BIG_KINDS[i % len(SH.BIG_KINDS)])
+        c["gen"] = ["gen_big", thorough, SH.BIG_KINDS[i % len(SH.BIG_KINDS)], sd]
         if rng.random() < 0.4:
             c["variant"] = SH.random_variant(rng, c)
         add("big", [c])
 
+    # W: work volume - many iterations of one internal loop at moderate size, answer by construction.  Quick crosses 2^7, 2^10,
+    # 2^11, 2^12 and 10^4 augmentations, 10^4 pops / path length and 10^5 pops / neighbours of one node; thorough goes further
+    work = [("augmentations", 130), ("augmentations", 1030), ("augmentations", 2060), ("augmentations", 4100), ("augmentations", 10010),
+            ("augmentations_fan", 1100), ("bfs_pops_path", 10000), ("bfs_pops_star", 100000)]
+    if thorough:
+        work += [("augmentations", 30000), ("augmentations", 100100), ("augmentations_fan", 2049), ("augmentations_fan", 4097), ("bfs_pops_path", 20000),
+                 ("bfs_pops_star", 2 ** 20 + 2)]
+    for loop, target in work:
+        sd = rng.getrandbits(48)
+        c = SH.gen_work(random.Random(sd), loop, target)
+        c["gen"] = ["gen_work", loop, target, sd]
+        if target <= 5000 and rng.random() < 0.5:
+            c["variant"] = SH.random_variant(rng, c)
+        add("work", [c])
+    n_edit = ctx.budget(90, 1200)         # A2: in-place edits between calls
+
+    work_max = {}
     corr, spec, metas, spec_metas = [], [], [], []
     prev = None
     for k, case in enumerate(cases):
@@ -592,7 +665,7 @@ def run(ctx: Ctx):
             ctx.notes.append(f"stopped after 3 violations: {len(cases) - k} generated cases not run")
             break
         kind = kinds[k]
-        out = run_impl(case)
+        out = run_impl(case, timeout=600.0 if kind == "work" else 5.0)
         ctx.evaluations += 1
         bad = oracle(case, out)
         var = case.get("variant") or {}
@@ -608,7 +681,7 @@ def run(ctx: Ctx):
         if "magnitude" in case:
             ctx.count("magnitude", case["magnitude"])
         # A: same input again (after another call in between) gives the same answer
-        if not bad and k % 4 == 0:
+        if not bad and k % 4 == 0 and kind != "work":
             if prev is not None:
                 run_impl(prev[0])
             again = run_impl(case)
@@ -616,7 +689,7 @@ def run(ctx: Ctx):
             if again[:4] != out[:4]:
                 bad = f"the same input gave a different answer on a second call: {again[1:4]!r} (first: {out[1:4]!r})"
             ctx.count("repeat_call", "same" if again[:4] == out[:4] else "different")
-        if not bad and k % 8 == 3 and "expected" not in case and case["source"] != case["sink"]:
+        if not bad and k % 8 == 3 and "expected" not in case:
             bad = run_sequence(case)
             ctx.evaluations += 3
             ctx.count("call_sequence", "ok" if bad is None else "bad")
@@ -625,14 +698,26 @@ def run(ctx: Ctx):
             bout = run_impl(case["scaled_from"])
             if bout[0] == "ok" and oracle(case["scaled_from"], bout) is None and out[2] != bout[2] * case["scale"]:
                 bad = f"capacities scaled by {case['scale']}: objective {out[2]} != {case['scale']} * {bout[2]}"
-        prev = (case, out)
+        prev = (case, out) if kind != "work" else prev
+        if out[0] == "ok" and isinstance(out[3], int):
+            wv = dict(case.get("work") or {})
+            wv["augmentations"] = out[3]                  # measured: Result.iterations (the rest is by construction)
+            for loop, n in wv.items():
+                work_max[loop] = max(work_max.get(loop, 0), n)
+                if kind == "work":
+                    for thr in (2 ** 7, 2 ** 10, 2 ** 11, 2 ** 12, 10 ** 4, 10 ** 5, 2 ** 20):
+                        if n >= thr:
+                            ctx.count("work_crossed", f"{loop}>={thr}")
         if bad:
             still = (lambda c: judge(c)[1] is not None)
-            small_case = shrink(case, still, budget=25 if out[0] == "hang" else 400) if oracle(case, out) else case
-            sout, sbad = judge(small_case)
+            if "expected" in case or not oracle(case, out):
+                small_case, sout, sbad = case, out, bad       # by-construction / sequence verdicts: report the case as run
+            else:
+                small_case = shrink(case, still, budget=25 if out[0] == "hang" else 400)
+                sout, sbad = judge(small_case)
             g_, s_, t_, _ = SH.materialize(small_case)
             n_arcs = sum(len(a) for _, a in small_case["graph"])
-            payload = small_case if n_arcs <= 5000 else {k2: v for k2, v in small_case.items() if k2 != "graph"}
+            payload = small_case if n_arcs <= 60000 else {k2: v for k2, v in small_case.items() if k2 != "graph"}
             ctx.violation(f"max_flow output violates the property: {sbad or bad}",
                           {"kind": "maxflow", **payload, "call": f"max_flow({g_!r}, {s_!r}, {t_!r})"[:3000],
                            "impl_out": repr(sout)[:3000], "original": case if n_arcs <= 200 else None, "original_verdict": bad})
@@ -640,6 +725,8 @@ def run(ctx: Ctx):
             obj, its = out[2], out[3]
             ctx.count("objective", obj if isinstance(obj, int) and obj < 8 else "8+")
             ctx.count("iterations", its if its < 6 else "6+")
+            if kind == "work":
+                continue
             ref = EV.ref_run(case, True)
             tot, cancels = ref["total"], ref["cancels"]
             ctx.count("reference_port_agrees", (ref["flow"], tot, ref["its"]) == (out[1], obj, its))
@@ -666,6 +753,21 @@ def run(ctx: Ctx):
         if sol_ok_for_coq(out, idx):
             spec.append(spec_case(case, out, idx))
             spec_metas.append((case, out))
+
+    ctx.extra["work_volume_max"] = work_max
+    # A2: in-place edits between calls on small cases
+    pool = [c for c, kd in zip(cases, kinds) if "expected" not in c and "scaled_from" not in c]
+    for _ in range(n_edit):
+        if len(ctx.violations) >= 3:
+            break
+        base_case = rng.choice(pool)
+        bad, edited = run_edits(base_case, rng)
+        ctx.evaluations += 7
+        ctx.count("in_place_edits", "ok" if bad is None else "bad")
+        if bad:
+            g_, s_, t_, _ = SH.materialize(edited)
+            ctx.violation(f"max_flow: {bad}"[:1500], {"kind": "maxflow", **edited, "edited_from": base_case,
+                                                      "call_on_fresh_copy": f"max_flow({g_!r}, {s_!r}, {t_!r})"[:3000]})
 
     # source == sink: the code does not return; the model says None (fuel) - keep the correspondence honest
     deg = {"graph": [["s", [["a", 1]]], ["a", [["s", 1]]]], "source": "s", "sink": "s"}
@@ -721,6 +823,10 @@ def run(ctx: Ctx):
 
 
 def replay(obj):
+    if "graph" not in obj and obj.get("gen"):      # very large generated instance: rebuilt from its own seed
+        gen = obj["gen"]
+        built = (SH.gen_big(random.Random(gen[3]), gen[1], gen[2]) if gen[0] == "gen_big" else SH.gen_work(random.Random(gen[3]), gen[1], gen[2]))
+        obj = {**obj, "graph": built["graph"]}
     if "graph" not in obj:
         print("replay has no input graph:", obj.get("unchecked") or obj.get("what"))
         return 1
